@@ -22,7 +22,7 @@ RULE = ("one evaluation = one seeded writer history (<= 5 sessions, <= 30 operat
 STATE_MEASURE = "distinct (mode, session index, feature kind, part length relative to chunk length, nan pattern) tuples"
 PROBES = ["remainder_after_full_chunk", "append_across_sessions", "replace_existing", "reset_nonempty",
           "log_append_longer_than_first", "log_multibyte", "bare_close", "h5file_target", "contour_across_sessions",
-          "rejected_call", "table_with_attrs", "trace_subset_replace", "part_equals_chunk", "single_event_part"]
+          "rejected_call", "table_with_attrs", "trace_subset_replace", "part_equals_chunk", "single_event_part", "integer_table"]
 COMPONENTS = {
     "real": ["dclab RTDCWriter", "dclab RTDC_HDF5 reader (events, logs, tables, config)", "h5py/HDF5 + hdf5plugin on tmpfs"],
     "stub": ["wall clock", "dclab version string (0.99.0)"],
@@ -245,7 +245,8 @@ class Machine:
             return {"k": "log", "name": r.choice(["l0", "l1", "wörk"]), "nlines": r.randint(1, 5), "dseed": r.randrange(1 << 30),
                     "long": r.random() < 0.35, "as": r.choice(["list", "list", "str", "bytes"])}
         if x < 0.82:
-            return {"k": "table", "name": f"t{r.randint(0, 3)}", "dseed": r.randrange(1 << 30), "as": r.choice(["dict", "rec", "h5ds"])}
+            return {"k": "table", "name": f"t{r.randint(0, 3)}", "dseed": r.randrange(1 << 30),
+                    "as": r.choice(["dict", "rec", "h5ds", "dict_int", "dict_lists"])}
         if x < 0.94:
             keys = []
             for _ in range(r.randint(1, 5)):
@@ -482,7 +483,16 @@ class Machine:
             ctx.violation("C01.reject.table_exists", f"store_table('{name}') on an existing table did not raise ({snapshot})")
         how = op["as"]
         with ctx.sut("C01.store_table"):
-            if how == "dict":
+            if how in ("dict_int", "dict_lists"):
+                # all-integer columns (arrays or python lists): tables hold floats, cells must keep their values
+                for n_ in t["data"].dtype.names:
+                    t["data"][n_] = np.round(t["data"][n_] * 3)
+                cols = {n_: (t["data"][n_].astype(np.int64) if how == "dict_int" else [int(v) for v in t["data"][n_]])
+                        for n_ in t["data"].dtype.names}
+                self.writer.store_table(name, cols)
+                t["attrs"] = {}
+                ctx.probe("integer_table")
+            elif how == "dict":
                 self.writer.store_table(name, {n_: t["data"][n_] for n_ in t["data"].dtype.names})
                 t["attrs"] = {}
             elif how == "rec":
